@@ -315,8 +315,8 @@ Proof.
     { pose proof (state_machine_ok p HP) as W.
       destruct (state_machine p) as [[[ev sp] p']|[|s m]|n]; cbn [epost] in W.
       - destruct W as [Wsp WP]. apply IH; [exact WP|exact HSE|]. constructor; [exact Wsp|exact HA].
-      - split; [apply Forall_rev; exact HA|]. split; [|intros; discriminate].
-        intros site m E Hne. destruct se as [|s0 m0| |]; try discriminate E.
+      - destruct se as [|s0 m0| |]; (split; [apply Forall_rev; exact HA|]); (split; [|intros; discriminate]);
+          intros st1 mk1 E Hne; try discriminate E.
         + injection E as <- _. congruence.
         + injection E as _ <-. eapply HSE; reflexivity.
       - split; [apply Forall_rev; exact HA|]. split; [intros; discriminate|]. intros site m0 E. injection E as _ <-. exact W.
